@@ -381,3 +381,45 @@ class RecordingRNG:
             return r
 
         return wrapper
+
+
+class QuantileRNG:
+    """Deterministic generator answering continuous draws from a prescribed list of quantiles
+    (consumed element by element, in call order): uniform -> lo + (hi-lo)*q, standard_normal ->
+    Phi^-1(q).  Used for product-grid quadrature over the generator's law."""
+
+    def __init__(self, qs):
+        self.qs = list(qs)
+        self.i = 0
+        self.bit_generator = _FakeBitGen()
+
+    def _take(self, n):
+        if self.i + n > len(self.qs):
+            raise HarnessError(f"QuantileRNG exhausted: needs {self.i + n} quantiles, has {len(self.qs)}")
+        out = np.array(self.qs[self.i : self.i + n], dtype=float)
+        self.i += n
+        return out
+
+    def uniform(self, low=0.0, high=1.0, size=None):
+        shape = _shape(size)
+        n = int(np.prod(shape)) if shape != () else 1
+        q = self._take(n)
+        v = low + (high - low) * q
+        # numpy's uniform never returns ``high``
+        v = np.where(v >= high, np.nextafter(high, low), v) if high > low else v
+        return float(v[0]) if size is None else v.reshape(shape)
+
+    def random(self, size=None, dtype=np.float64, out=None):
+        return self.uniform(0.0, 1.0, size)
+
+    def standard_normal(self, size=None, dtype=np.float64, out=None):
+        from scipy.special import ndtri
+
+        shape = _shape(size)
+        n = int(np.prod(shape)) if shape != () else 1
+        v = ndtri(self._take(n))
+        return float(v[0]) if size is None else v.reshape(shape)
+
+    @property
+    def consumed(self):
+        return self.i
